@@ -92,7 +92,11 @@ pub fn exec(line: &str, _model: &mut Model) -> Option<Exec> {
                     let mut bytes = unhex(p.get(1)?)?;
                     let mut inbuf = RawBuffer { data: bytes.as_mut_ptr(), len: bytes.len() as u32 };
                     if bytes.is_empty() { inbuf.data = std::ptr::NonNull::<u8>::dangling().as_ptr(); }
+                    let original = bytes.clone();
                     let r = counted(|| bundle_from_cbor(&mut inbuf as *mut RawBuffer as *mut Buffer));
+                    // the input buffer belongs to the caller: decoding must leave it as it was
+                    if bytes != original && fail.is_none() { fail = Some("bundle_from_cbor modified the caller's input buffer".into()); }
+                    let bytes = original;
                     let api = no_panic(|| Bundle::try_from(bytes.as_slice()).ok().filter(|b| b.validate().is_ok())).flatten();
                     if r.is_null() { out.push("null".into()); if api.is_some() && fail.is_none() { fail = Some("valid bundle answered with a null pointer".into()); } }
                     else { out.push(format!("h{}", hs.len())); if api.is_none() && fail.is_none() { fail = Some("invalid input answered with a bundle".into()); } hs.push(H::Bundle(r, Some(bytes.clone()))); }
@@ -207,7 +211,12 @@ pub fn generate(ctx: &mut Ctx, rep: &mut Report, emit: &mut dyn FnMut(&mut Ctx, 
                                if rng.chance(1, 12) { let n = *rng.pick(&[65_535usize, 65_536, 65_537, 70_000]); b.set_payload(rng.bytes(n)); }
                                // any block order is valid on the wire: the payload block need not be last
                                if rng.chance(1, 2) { for i in (1..b.canonicals.len()).rev() { let j = rng.below(i as u64 + 1) as usize; b.canonicals.swap(i, j); } }
-                               b.to_cbor() }
+                               let mut v = b.to_cbor();
+                               // the same bundle as other conformant encoders may write it: chunked (indefinite-length)
+                               // byte/text strings, semantic tags in front (serde_cbor skips tags)
+                               if rng.chance(1, 4) { v = crate::p_rx::chunk_strings(&mut rng, &v); }
+                               if rng.chance(1, 5) { let tag: &[u8] = *rng.pick(&[&[0xd9u8, 0xd9, 0xf7][..], &[0xd8, 0x18], &[0xc0], &[0xdb, 0, 0, 0, 0, 0, 0, 0, 1], &[0xd9, 0xd9, 0xf7, 0xd8, 0x18]]); let mut w = tag.to_vec(); w.extend_from_slice(&v); v = w; }
+                               v }
                     };
                     let ok = Bundle::try_from(bytes.as_slice()).ok().map(|b| b.validate().is_ok()).unwrap_or(false);
                     calls.push(format!("D:{}", hex(&bytes)));
